@@ -6,10 +6,109 @@ package main
 // resource) held by the two clients are compared per type (CDS, EDS, LDS, RDS).
 
 import (
+	"fmt"
+	"os"
+	"sync"
 	"time"
 
+	"istio.io/istio/pilot/pkg/model"
+	"istio.io/istio/pilot/pkg/xds"
 	"verifharness/internal/wire"
 )
+
+// LagSpec scripts "the state is ahead of its events". Events reach the server through ConfigUpdate;
+// the hook verifGateReq (build tag verif) lets the harness park those calls by the object names
+// they mention, while the registries and the config store already show the change to every push
+// context that reloads them:
+//
+//	the events of step Step (names Names) are parked; step Step+1 is applied (its events, names
+//	Next, queue up behind them or are parked as well); once its state is visible the first group is
+//	released and pushed to quiescence - from a push context that already contains the change of
+//	step Step+1 - and only then the second group is delivered.
+//
+// The comparison resumes after the last release.
+type LagSpec struct {
+	Step  int      `json:"step"`
+	Names []string `json:"names"`
+	Next  []string `json:"next,omitempty"`
+}
+
+type reqGate struct {
+	mu      sync.Mutex
+	parked  [2]int
+	release [2]chan struct{}
+}
+
+func installReqGate(first, second []string) *reqGate {
+	g := &reqGate{release: [2]chan struct{}{make(chan struct{}), make(chan struct{})}}
+	stageOf := map[string]int{}
+	for _, n := range second {
+		stageOf[n] = 2
+	}
+	for _, n := range first {
+		stageOf[n] = 1
+	}
+	xds.VerifE2ESetReqGate(func(point string, req *model.PushRequest) {
+		stage := 0
+		for k := range req.ConfigsUpdated {
+			if s := stageOf[k.Name]; s != 0 && (stage == 0 || s < stage) {
+				stage = s
+			}
+		}
+		if stage == 0 {
+			return
+		}
+		g.mu.Lock()
+		g.parked[stage-1]++
+		g.mu.Unlock()
+		select {
+		case <-g.release[stage-1]:
+		case <-time.After(30 * time.Second): // never park a caller for good
+		}
+	})
+	return g
+}
+
+func (g *reqGate) count(stage int) int {
+	g.mu.Lock()
+	defer g.mu.Unlock()
+	return g.parked[stage-1]
+}
+
+func (g *reqGate) open(stage int) {
+	select {
+	case <-g.release[stage-1]:
+	default:
+		close(g.release[stage-1])
+	}
+}
+
+func (g *reqGate) openAll() {
+	xds.VerifE2ESetReqGate(nil)
+	g.open(1)
+	g.open(2)
+}
+
+func opNames(w *world, o Op) []string {
+	switch o.K {
+	case "se":
+		names := append([]string(nil), o.Hosts...)
+		if old, ok := w.Cfg[o.key()]; ok {
+			names = append(names, old.Hosts...)
+		}
+		return names
+	case "del":
+		if old, ok := w.Cfg[o.key()]; ok && old.K == "se" {
+			return old.Hosts
+		}
+		return []string{o.N}
+	case "msvc", "mdel", "meps":
+		// the memory registry calls ConfigUpdate synchronously, in the goroutine of the harness
+		// itself: its events must never be parked
+		return nil
+	}
+	return []string{o.N}
+}
 
 func genC03(r *wire.Rng) *History {
 	if ztEnabled && r.Chance(1, 4) {
@@ -35,6 +134,42 @@ func genC03(r *wire.Rng) *History {
 			ops = append(ops, o)
 		}
 		h.Steps = append(h.Steps, ops)
+	}
+	// Un-scripted bursts (ops applied back to back) are only deterministic when all their events
+	// merge into ONE push: event delivery inside the server is asynchronous, and with a short
+	// debounce the first event can be pushed from a context that already contains the later
+	// changes (the race that the lag cases below script deliberately).
+	for _, ops := range h.Steps {
+		if len(ops) > 1 {
+			h.Debounce = 50
+		}
+	}
+	// a quarter of the cases hold back the events of one single-op step while the next step is pushed
+	if r.Chance(1, 4) {
+		w2 := newWorld(false)
+		for _, o := range h.Base {
+			w2.note(o)
+		}
+		var cands []LagSpec
+		for i, ops := range h.Steps {
+			if len(ops) == 1 && i+1 < len(h.Steps) && (ops[0].K == "se" || ops[0].K == "dr" || (ops[0].K == "del" && (ops[0].Kind == "se" || ops[0].Kind == "dr"))) {
+				l := LagSpec{Step: i + 1, Names: opNames(w2, ops[0])}
+				w3 := w2.clone()
+				w3.note(ops[0])
+				for _, o := range h.Steps[i+1] {
+					l.Next = append(l.Next, opNames(w3, o)...)
+					w3.note(o)
+				}
+				cands = append(cands, l)
+			}
+			for _, o := range ops {
+				w2.note(o)
+			}
+		}
+		if len(cands) > 0 {
+			l := wire.Pick(r, cands)
+			h.Lag = &l
+		}
 	}
 	return h
 }
@@ -133,7 +268,13 @@ func runC03(h *History, stt *stats) result {
 			return &result{Clause: "harness-client-error", Detail: map[string]any{"after_step": step, "errors": errs}}
 		}
 		if len(d) > 0 {
-			return &result{Clause: "delta-ne-sotw", Detail: merge(map[string]any{"after_step": step, "n": len(d), "diff": limitDiffs(d, 6),
+			clause := "delta-ne-sotw"
+			if h.Lag != nil && step == h.Lag.Step+1 {
+				// the scripted race: the events of one change were delivered after a push built from a
+				// context that already contained it
+				clause = "delta-ne-sotw:events-behind-state"
+			}
+			return &result{Clause: clause, Detail: merge(map[string]any{"after_step": step, "n": len(d), "diff": limitDiffs(d, 6),
 				"a": "sotw client", "b": "delta client"}, clientInfo(sotw, delta))}
 		}
 		for _, e := range []*envoy{sotw, delta} {
@@ -148,7 +289,58 @@ func runC03(h *History, stt *stats) result {
 	if r := check(0); r != nil {
 		return *r
 	}
-	for i, ops := range h.Steps {
+	var gate *reqGate
+	defer func() {
+		if gate != nil {
+			gate.openAll()
+		}
+	}()
+	applyQuick := func(ops []Op) *result {
+		for _, o := range ops {
+			if err := st.apply(w, o); err != nil {
+				return &result{Clause: "harness-apply-error", Detail: map[string]any{"op": o, "err": err.Error()}}
+			}
+			stt.Ops[o.K]++
+		}
+		return nil
+	}
+	for i := 0; i < len(h.Steps); i++ {
+		ops := h.Steps[i]
+		if h.Lag != nil && h.Lag.Step == i+1 && i+1 < len(h.Steps) {
+			gate = installReqGate(h.Lag.Names, h.Lag.Next)
+			if r := applyQuick(ops); r != nil {
+				return *r
+			}
+			// the events of this step are parked: the state they announce is visible by then
+			deadline := time.Now().Add(2 * time.Second)
+			for gate.count(1) == 0 && time.Now().Before(deadline) {
+				time.Sleep(pollEvery)
+			}
+			// the next step: its state becomes visible too, its events wait
+			if r := applyQuick(h.Steps[i+1]); r != nil {
+				return *r
+			}
+			stt.Steps += 2
+			time.Sleep(100 * time.Millisecond)
+			stt.Extra["lag-events-parked"] += gate.count(1)
+			if os.Getenv("E2E_DEBUG") != "" {
+				fmt.Fprintln(os.Stderr, "DEBUG parked", gate.count(1), gate.count(2))
+			}
+			gate.open(1)
+			if !st.quiesce(sotw, delta) {
+				return timeoutResult("quiescence with parked events", clientInfo(sotw, delta))
+			}
+			stt.Extra["lag-late-events-parked"] += gate.count(2)
+			gate.openAll()
+			gate = nil
+			stt.Extra["lag-released"]++
+			time.Sleep(calmTime)
+			i++
+			if r := check(i + 1); r != nil {
+				return *r
+			}
+			continue
+		}
 		if r := applyStep(st, w, ops, stt); r != nil {
 			return *r
 		}
@@ -156,25 +348,6 @@ func runC03(h *History, stt *stats) result {
 		if r := check(i + 1); r != nil {
 			return *r
 		}
-	}
-	// sanity: the long-lived SotW client against a client connected now (C01's statement; here it
-	// guards against both clients being equally stale)
-	fresh := newEnvoy("fresh", false, "app-fresh")
-	fresh.connect(st, connectOpts{})
-	defer fresh.disconnect()
-	d, ok := settle(st, stt, func() []diff {
-		a, b := sotw.snapshot(), fresh.snapshot()
-		stt.Comparisons++
-		stt.Compared += countHeld(a, envoyTypes)
-		return compareHeld(a, b, envoyTypes)
-	}, sotw, delta, fresh)
-	stt.client(fresh)
-	if !ok {
-		return timeoutResult("quiescence-fresh", clientInfo(fresh))
-	}
-	if len(d) > 0 {
-		return result{Clause: "long-ne-fresh", Detail: merge(map[string]any{"n": len(d), "diff": limitDiffs(d, 6), "a": "long-lived sotw client",
-			"b": "fresh sotw client"}, clientInfo(sotw, fresh))}
 	}
 	hd := sotw.snapshot()
 	return result{OK: true, Summary: "c03 envoy steps=" + itoa(len(h.Steps)) + " held=" + itoa(len(hd["CDS"])) + "/" + itoa(len(hd["EDS"])) + "/" +
